@@ -999,25 +999,16 @@ func checkEveryCellFiltered(c *Ctx, rule string) {
 				}
 			}
 		}
-		// cell stores
+		// cell stores (in the function, or made by a helper it calls with the index and the value: c.put(j, filter, d))
 		n := 0
-		allInstrs(fn, func(in ssa.Instruction) {
-			st, ok := in.(*ssa.Store)
-			if !ok {
-				return
-			}
-			ia, ok := st.Addr.(*ssa.IndexAddr)
-			if !ok {
-				return
-			}
-			if _, isRow := ia.X.(*ssa.MakeSlice); !isRow {
-				return
-			}
-			idx := ia.Index
+		res0 := NewResolver(w)
+		for _, cs := range cellStoresOf(res0, fn) {
+			st := cs.st
+			idx := cs.idx
 			// the stored value's leaves (the abi_idx arm stores the row counter and has no filter)
-			for _, lf := range phiLeaves(st.Val) {
+			for _, lf := range phiLeaves(cs.val) {
 				v := lf.Val
-				var site ssa.Instruction = st
+				var site ssa.Instruction = cs.at
 				if lf.Pred != nil {
 					site = terminator(lf.Pred)
 				}
@@ -1036,13 +1027,14 @@ func checkEveryCellFiltered(c *Ctx, rule string) {
 					}
 					root, _ := fieldChain(a.recv)
 					s, i, isElem := elemOf(root)
-					if isElem && i == idx && isLoadOfField(s, fDefs) && dominatesInstr(a.call, site) {
+					// the helper that stores the cell is the one that offered it (same call): nothing to order
+					if isElem && i == idx && isLoadOfField(s, fDefs) && (dominatesInstr(a.call, site) || ssa.Instruction(a.call) == site) {
 						ok = true
 					}
 				}
 				c.Check(rule, fmt.Sprintf("%s/cell#%d-offered-to-its-filter", fnName(fn), n), st.Pos(), ok, "the value stored in row[k] was passed to coldefs[k]'s Filter.Accept first")
 			}
-		})
+		}
 		if n == 0 {
 			c.Violation(rule, fnName(fn)+"/cells", fn.Pos(), "no filtered cell found")
 		}
@@ -1719,6 +1711,93 @@ func unwrapBound(f *ssa.Function) []*ssa.Function {
 	}
 	if len(out) == 0 {
 		return []*ssa.Function{f}
+	}
+	return out
+}
+
+// ---- rows and their cells ------------------------------------------------------
+
+// rowSliceField: the field f holds rows under construction: every store to it,
+// program-wide, is a freshly made slice (make([]any, …)).
+func rowSliceField(res *Resolver, f *types.Var) bool {
+	if f == nil {
+		return false
+	}
+	res.build()
+	vals := res.fieldStore[f]
+	if len(vals) == 0 {
+		return false
+	}
+	for _, v := range vals {
+		if _, ok := stripConv(v).(*ssa.MakeSlice); !ok {
+			return false
+		}
+	}
+	return true
+}
+
+// isRowValue: v is a row under construction: a slice made here, or read from a field that only ever holds such
+func isRowValue(res *Resolver, v ssa.Value) bool {
+	v = stripConv(v)
+	if _, ok := v.(*ssa.MakeSlice); ok {
+		return true
+	}
+	if lf, _ := loadedField(v); lf != nil && rowSliceField(res, lf) {
+		return true
+	}
+	return false
+}
+
+// cellStore: row[idx] = val as seen from fn: a store in fn itself (at = the store), or one made
+// by a helper fn calls with idx and val taken from the call's arguments (at = the call)
+type cellStore struct {
+	row, idx, val ssa.Value
+	at            ssa.Instruction
+	st            *ssa.Store
+}
+
+func cellStoresOf(res *Resolver, fn *ssa.Function) []cellStore {
+	var out []cellStore
+	allInstrs(fn, func(in ssa.Instruction) {
+		st, ok := in.(*ssa.Store)
+		if !ok {
+			return
+		}
+		ia, ok := st.Addr.(*ssa.IndexAddr)
+		if !ok || !isRowValue(res, ia.X) {
+			return
+		}
+		out = append(out, cellStore{ia.X, ia.Index, st.Val, st, st})
+	})
+	for _, ci := range callsIn(fn) {
+		call, ok := ci.(*ssa.Call)
+		if !ok {
+			continue
+		}
+		h := staticCallee(call)
+		if h == nil || h.Blocks == nil || !isRepoFunc(h) || h == fn {
+			continue
+		}
+		allInstrs(h, func(in ssa.Instruction) {
+			st, ok := in.(*ssa.Store)
+			if !ok {
+				return
+			}
+			ia, ok := st.Addr.(*ssa.IndexAddr)
+			if !ok || !isRowValue(res, ia.X) {
+				return
+			}
+			ip, ok1 := stripConv(ia.Index).(*ssa.Parameter)
+			vp, ok2 := stripConv(st.Val).(*ssa.Parameter)
+			if !ok1 || !ok2 {
+				return
+			}
+			ki, kv := paramIndex(ip), paramIndex(vp)
+			if ki < 0 || kv < 0 || ki >= len(call.Call.Args) || kv >= len(call.Call.Args) {
+				return
+			}
+			out = append(out, cellStore{ia.X, call.Call.Args[ki], call.Call.Args[kv], call, st})
+		})
 	}
 	return out
 }
